@@ -542,6 +542,159 @@ Fixpoint kv_of_lines (sep : Z) (lines : list bytes) : list (bytes * bytes) :=
 Definition linux_lines (b : bytes) : list bytes := split_on 10 b [].
 Definition linux_kv (sep : Z) (b : bytes) : list (bytes * bytes) := kv_of_lines sep (linux_lines b).
 
+(* ---- crashpad info (minidump.rs 5075-5280): annotation lists, dictionaries, objects, module links.
+   std::str::from_utf8 is modelled by [utf8_ok] (well-formed UTF-8 per the Unicode standard, table 3-7) *)
+Definition cont (b : Z) : bool := (128 <=? b) && (b <=? 191).
+Fixpoint utf8_ok (l : bytes) : bool :=
+  match l with
+  | [] => true
+  | a :: t =>
+      if a <? 128 then utf8_ok t
+      else if (194 <=? a) && (a <=? 223) then
+        match t with b :: t' => cont b && utf8_ok t' | _ => false end
+      else if (224 <=? a) && (a <=? 239) then
+        match t with
+        | b :: c :: t' =>
+            (if a =? 224 then (160 <=? b) && (b <=? 191) else if a =? 237 then (128 <=? b) && (b <=? 159) else cont b)
+            && cont c && utf8_ok t'
+        | _ => false
+        end
+      else if (240 <=? a) && (a <=? 244) then
+        match t with
+        | b :: c :: d :: t' =>
+            (if a =? 240 then (144 <=? b) && (b <=? 191) else if a =? 244 then (128 <=? b) && (b <=? 143) else cont b)
+            && cont c && cont d && utf8_ok t'
+        | _ => false
+        end
+      else false
+  end.
+Definition utf8_string (e : endian) (all : bytes) (off : Z) : option bytes :=
+  match read_string_utf8_unterminated e all off with
+  | Some (s, o) => if utf8_ok s then match get_u 1 e all o with Some 0 => Some s | _ => None end else None
+  | None => None
+  end.
+Definition utf8_string_unterminated (e : endian) (all : bytes) (off : Z) : option bytes :=
+  match read_string_utf8_unterminated e all off with
+  | Some (s, _) => if utf8_ok s then Some s else None
+  | None => None
+  end.
+Fixpoint bytes_eqb (a b : bytes) : bool :=
+  match a, b with
+  | [], [] => true
+  | x :: a', y :: b' => (x =? y) && bytes_eqb a' b'
+  | _, _ => false
+  end.
+Fixpoint insert_key (k : bytes) (l : list bytes) : list bytes :=
+  match l with [] => [k] | x :: t => if bytes_eqb x k then l else x :: insert_key k t end.
+
+Definition MSZ_STRING := 24.               (* size_of::<String>() *)
+Definition MSZ_MODULE_CRASHPAD := 112.     (* size_of::<MinidumpModuleCrashpadInfo>() *)
+Definition FSZ_CRASHPAD := 52.  Definition FSZ_MODULE_CRASHPAD := 28.  Definition FSZ_LINK := 12.
+(* these readers bound their counts by the whole FILE (ensure_count_in_bound(all, ..)), not by the
+   stream: every ledger entry is at most ALLOC_FILE_C * |file| *)
+Definition ALLOC_FILE_C := 10.
+
+(* read_string_list: u32 count (count * 4 must fit the file), then that many RVAs of NUL-terminated strings *)
+Definition string_list_entry (e : endian) (all data : bytes) (off : Z) : M unit :=
+  lift (match get_u 4 e data off with
+        | None => Err EStreamReadFailure
+        | Some rva => match utf8_string e all rva with Some _ => Ok tt | None => Err EStreamReadFailure end
+        end).
+Definition read_string_list (e : endian) (all : bytes) (size rva : Z) : M Z :=
+  bnd data <- lift (of_opt EStreamReadFailure (location_slice all size rva)) ;;
+  if blen data =? 0 then ret 0 else
+  bnd count <- lift (of_opt EStreamReadFailure (get_u 4 e data 0)) ;;
+  bnp (n, _) <- lift (ensure_count_in_bound (blen all) count 4 0) ;;
+  bnd _ <- alloc (n * MSZ_STRING) ;;
+  bnd l <- for_entries (fuel_of all) (string_list_entry e all data) 4 4 n ;;
+  ret (blen l).
+
+(* read_simple_string_dictionary: the u32 count is NOT validated; every iteration reads 8 bytes of
+   [data], so the loop ends with the data.  Returns the number of distinct keys (BTreeMap). *)
+Fixpoint dict_loop (fuel : nat) (e : endian) (all data : bytes) (off count : Z) (keys : list bytes) : res Z :=
+  if count <=? 0 then Ok (blen keys)
+  else if can_read data off 8 then
+         match fuel with
+         | O => NoFuel
+         | S fuel' =>
+             match utf8_string e all (val e (sub data off 4)) with
+             | None => Err EStreamReadFailure
+             | Some k =>
+                 match utf8_string e all (val e (sub data (off + 4) 4)) with
+                 | None => Err EStreamReadFailure
+                 | Some _ => dict_loop fuel' e all data (off + 8) (count - 1) (insert_key k keys)
+                 end
+             end
+         end
+       else Err EStreamReadFailure.
+Definition read_simple_dictionary (e : endian) (all : bytes) (size rva : Z) : res Z :=
+  match location_slice all size rva with
+  | None => Err EStreamReadFailure
+  | Some data =>
+      if blen data =? 0 then Ok 0
+      else match get_u 4 e data 0 with
+           | None => Err EStreamReadFailure
+           | Some count => dict_loop (fuel_of data) e all data 4 count []
+           end
+  end.
+(* read_annotation_objects: 12-byte entries (name rva, u16 type, u16 reserved, value rva); a value is
+   only read for TYPE_STRING (1), as a length-prefixed string without terminator *)
+Fixpoint annot_loop (fuel : nat) (e : endian) (all data : bytes) (off count : Z) (keys : list bytes) : res Z :=
+  if count <=? 0 then Ok (blen keys)
+  else if can_read data off 12 then
+         match fuel with
+         | O => NoFuel
+         | S fuel' =>
+             match utf8_string e all (val e (sub data off 4)) with
+             | None => Err EStreamReadFailure
+             | Some k =>
+                 let ty := val e (sub data (off + 4) 2) in
+                 if (ty =? 1) && (match utf8_string_unterminated e all (val e (sub data (off + 8) 4)) with Some _ => false | None => true end)
+                 then Err EStreamReadFailure
+                 else annot_loop fuel' e all data (off + 12) (count - 1) (insert_key k keys)
+             end
+         end
+       else Err EStreamReadFailure.
+Definition read_annotation_objects (e : endian) (all : bytes) (size rva : Z) : res Z :=
+  match location_slice all size rva with
+  | None => Err EStreamReadFailure
+  | Some data =>
+      if blen data =? 0 then Ok 0
+      else match get_u 4 e data 0 with
+           | None => Err EStreamReadFailure
+           | Some count => annot_loop (fuel_of data) e all data 4 count []
+           end
+  end.
+(* MinidumpModuleCrashpadInfo::read(link): the record is read at link.location.rva of the FILE *)
+Definition read_module_crashpad (e : endian) (all : bytes) (rva : Z) : M Z :=
+  if can_read all rva FSZ_MODULE_CRASHPAD then
+    let r := sub all rva FSZ_MODULE_CRASHPAD in
+    bnd a <- read_string_list e all (val e (sub r 4 4)) (val e (sub r 8 4)) ;;
+    bnd b <- lift (read_simple_dictionary e all (val e (sub r 12 4)) (val e (sub r 16 4))) ;;
+    bnd c <- lift (read_annotation_objects e all (val e (sub r 20 4)) (val e (sub r 24 4))) ;;
+    ret (a + b + c)
+  else lift (Err EStreamReadFailure).
+Definition link_entry (e : endian) (all data : bytes) (off : Z) : M Z :=
+  if can_read data off FSZ_LINK then read_module_crashpad e all (val e (sub data (off + 8) 4))
+  else lift (Err EStreamReadFailure).
+Definition read_crashpad_module_links (e : endian) (all : bytes) (size rva : Z) : M (Z * Z) :=
+  bnd data <- lift (of_opt EStreamReadFailure (location_slice all size rva)) ;;
+  if blen data =? 0 then ret (0, 0) else
+  bnd count <- lift (of_opt EStreamReadFailure (get_u 4 e data 0)) ;;
+  bnp (n, _) <- lift (ensure_count_in_bound (blen all) count FSZ_LINK 0) ;;
+  bnd _ <- alloc (n * MSZ_MODULE_CRASHPAD) ;;
+  bnd l <- for_entries (fuel_of all) (link_entry e all data) 4 FSZ_LINK n ;;
+  ret (blen l, fold_right Z.add 0 l).
+(* returns (simple annotations, modules, annotations of all modules) *)
+Definition read_crashpad_info (e : endian) (all b : bytes) : M (Z * (Z * Z)) :=
+  if can_read b 0 FSZ_CRASHPAD then
+    if val e (sub b 0 4) =? 0 then lift (Err EVersionMismatch)
+    else
+      bnd simple <- lift (read_simple_dictionary e all (val e (sub b 36 4)) (val e (sub b 40 4))) ;;
+      bnd ml <- read_crashpad_module_links e all (val e (sub b 44 4)) (val e (sub b 48 4)) ;;
+      ret (simple, ml)
+  else lift (Err EStreamReadFailure).
+
 (* ---- Minidump::read *)
 Definition MD_SIGNATURE := 1347241037.  (* 'MDMP' 0x504d444d *)
 Definition MD_VERSION := 42899.         (* 0xa793 *)
@@ -588,7 +741,7 @@ Definition get_stream {A} (all : bytes) (ds : list dirent) (ty : Z) (rd : bytes 
 Definition ST_THREAD_LIST := 3.   Definition ST_MODULE_LIST := 4.   Definition ST_MEMORY_LIST := 5.
 Definition ST_EXCEPTION := 6.     Definition ST_SYSTEM_INFO := 7.   Definition ST_MEMORY64_LIST := 9.
 Definition ST_HANDLE_DATA := 12.  Definition ST_UNLOADED := 14.     Definition ST_MEMORY_INFO := 16.
-Definition ST_THREAD_INFO := 17.  Definition ST_THREAD_NAMES := 24.  Definition ST_MISC_INFO := 15.
+Definition ST_THREAD_INFO := 17.  Definition ST_THREAD_NAMES := 24.  Definition ST_MISC_INFO := 15.  Definition ST_CRASHPAD := 1129316353.  (* 0x43500001 *)
 Definition ST_LINUX_CPU := 1197932547.    (* 0x47670003 *)
 Definition ST_LINUX_STATUS := 1197932548. Definition ST_LINUX_LSB := 1197932549.  Definition ST_LINUX_ENVIRON := 1197932551.
 Definition ST_MOZ_LIMITS := 1299841027.   (* 0x4d7a0003 *)
